@@ -456,5 +456,7 @@ SCHEMES.update({
     'shpe': Spec('C06', 4, dict(ct='bn'), o_shpe, opts=lambda rng: dict(cls=rng.below(2), n=rng.choice([0, 0, 1, 2]), dup=rng.below(2)), weight=6),
     'mpcg1': Spec('C06', 5, dict(l1='bn', d1='g1'), o_match, pc=True, weight=5),
     'mpcpc': Spec('C06', 5, dict(d1='g1', e1='g2'), o_match, pc=True, weight=5),
+    'mpcg2': Spec('C06', 5, dict(l1='bn', d1='g2'), o_match, pc=True, weight=3),
+    'mpcgt': Spec('C06', 5, dict(l1='bn', d1='gt'), o_match, pc=True, weight=3),
 })
 P.KEYFIELDS = KEYFIELDS
